@@ -1172,10 +1172,12 @@ class DocutilsRenderer(RendererProtocol):
             # the object type is the remainder: it may itself contain `:`,
             # e.g. `rst:directive:option`
             path_parts = path.split(":", 2)
+            # a part that is left empty (`inv::std:label#name`) is omitted,
+            # i.e. it matches everything, as when all the parts are left out
             with suppress(IndexError):
-                invs = path_parts[0]
-                domains = path_parts[1]
-                otypes = path_parts[2]
+                invs = path_parts[0] or None
+                domains = path_parts[1] or None
+                otypes = path_parts[2] or None
 
         # find the matches
         matches = self.get_inventory_matches(
